@@ -50,7 +50,10 @@ def op_tags(op, a, b):
 
 
 def pair_wf(a, b):
-    """the property's class for a pair: no dropped table is still referenced by a surviving table of A"""
+    """the property's class for a pair: both schemas in the class (constraint signatures distinct) and no
+    dropped table is still referenced by a surviving table of A"""
+    if not (G.schema_wf(a) and G.schema_wf(b)):
+        return False
     bn = {t["name"] for t in b["tables"]}
     dropped = {t["name"] for t in a["tables"]} - bn
     for t in a["tables"]:
@@ -105,8 +108,6 @@ def check_reflect_tables(ctx, rng, n_draws=3):
         for ty, m in zip(items, ans):
             t = S.mk_type(ty)
             ddl, refl, _ = S.ddl_and_reflected(conn, t)
-            col_md = sa.Column("c", t)
-            col_db = sa.Column("c", sa.inspect(conn).dialect.ischema_names.get("X", sa.types.NullType)())
             # the real compare_type on (reflected type, metadata type)
             md = sa.MetaData()
             tb = sa.Table("_p", md, sa.Column("c", t))
@@ -158,6 +159,14 @@ def check_reflect_tables(ctx, rng, n_draws=3):
 
 
 def live_dump(conn):
+    import warnings
+
+    with warnings.catch_warnings():
+        warnings.simplefilter("ignore")
+        return _live_dump(conn)
+
+
+def _live_dump(conn):
     insp = sa.inspect(conn)
     tc = conn.dialect.type_compiler
     out = {}
@@ -263,7 +272,9 @@ def flush_pairs(ctx, pending):
             if "err" in m:
                 ctx.disagree("diff.spec_quiet", inp, ops, m, "implementation ops outside the model vocabulary")
                 continue
-            if m.get("holds") is not True:
+            if m.get("holds") is not True and not pair_wf(inp["a"], inp["b"]):
+                ctx.hist("pair.outcome", "residual-outside-property-class")
+            elif m.get("holds") is not True:
                 for o in ops:
                     what = ("quiet: autogenerate reports %s against the database created from the same model" if kind == "quiet"
                             else "converge: after running the generated upgrade a second autogenerate still reports %s") % o
